@@ -185,10 +185,11 @@ def perm(ctx):
 BOUNDED = [bounded("fa_repro.py", "perm_relabel", "C16.perm-relabel.fa",
                    "ISV/JFA: presenting the labelled statistics in another order, or renaming the class ids by a permutation of 0..K-1, gives exactly the same U, V, D")]
 GROUPS = [guard(rng_kmeans), guard(rng_gmm), guard(rng_fa), guard(noglobals), guard(perm)]
-SHARED = []
-REPLAY = [("C16", "effects_repro.py", "determinism", {})]
+SHARED = [("C14", "wccn", ["C14.wccn.mu"]), ("C14", "partition_only", ["C14.wccn.partition-only"])]
+REPLAY = [("C14", "effects_repro.py", "determinism", {}), ("C16.perm-relabel", "fa_repro.py", "perm_relabel", {}), ("C16", "effects_repro.py", "determinism", {})]
 TRUSTED = ["reindexing a finite sum by a bijection does not change it (real arithmetic)",
            "dask_ml k_init with an integer random_state is a function of its arguments only and neither reads nor writes NumPy's global generator",
            "with a seeded *sampling* initialiser (k-means||, k-means++, random) the initial centroids are chosen by row index, so the clause "
            "'any order of the samples' is verified for explicit initial parameters and assumed for k_init (DESIGN §5 C16)"]
 ASSUMPTIONS = ["random_state is an integer seed"]
+XCHECK = ['wccn', 'kmeans']
